@@ -1,11 +1,11 @@
-\* the code as it is: encoding an execution result with recorded invocations marks the object that stays in memory: PathIndependent must be REFUTED
+\* named deviation SizeOfReceived (the code before its repair): must be refuted by the abstract invariants
 SPECIFICATION Spec
 CONSTANTS
   Kinds = {"tx", "block", "header", "stateroot", "extensible", "consensus", "notaryreq", "aer", "nef", "manifest", "contract", "mptnode", "rule", "signer", "item"}
   K = 3
-  Dev = {}
-  Quirks = {"EncodeMarksObject"}
-  Origins = {"canon"}
+  Dev = {"SizeOfReceived"}
+  Quirks = {}
+  Origins = {"canon", "nc-signed", "nc-unsigned"}
   Mode = "mc"
 INVARIANTS PathIndependent SizeExact NoRefusal Confluent
 CHECK_DEADLOCK FALSE
